@@ -80,6 +80,33 @@ check('C09', 'proof',
       'Lean 4 proof + unit and pipeline correspondence',
       'DESIGN.md §3 C09')
 
+check('C10', 'proof',
+      'Lean theorems over RTV/Model/WellFormed.lean: duration_timex_reads_back (for every N and each of the seven unit codes '
+      'the TIMEX P[T]N<U> the duration parser writes denotes exactly N of that unit), duration_value_matches_timex, '
+      'unit_tables_consistent (the duration tables of EVERY culture, regenerated from the working tree each run, assign each '
+      'spelling the length of its unit code — kernel-checked), luis_time_span_inverse, between_dates_consistent (the '
+      '(begin,end,PnD) triple is self-consistent for ALL valid dates begin <= end). The property predicate tripleOK is a Lean '
+      'function evaluated through the compiled driver on every range entity the real model returns over all Python-supported '
+      'DateTime Specs inputs; pipeline: N x every unit spelling of every culture, ordered pairs of absolute dates and clock '
+      'times ("from A to B", "between A and B").',
+      TB + 'Not modelled: the regex front end that finds "N <unit>" and the period parsers\' plumbing (pipeline only). 55 recorded '
+      'findings (single-letter unit spellings that are never extracted; inclusive "rest of …" triples; Specs-expected).',
+      'Lean 4 proof + kernel-checked regenerated tables + Lean spec predicate evaluated on the implementation\'s output',
+      'DESIGN.md §3 C10')
+
+check('C11', 'proof',
+      'The property predicate wellFormed (shape per type, definite TIMEX => equal value, type name) is a Lean function; the '
+      'theorems show that what the resolution assembly emits for slots built from datetime objects satisfies it for every '
+      'valid date 0001..9999 and time of day (format_date/_time/_datetime_wellformed, assembly_wellformed_date, '
+      'definite_timex_value_date, min_value_filtered: the minimum date never reaches the output, type_name_agrees), tied to '
+      'DateTimeFormatUtil / _determine_date_time_types / _date_time_resolution by unit correspondence. The predicate is '
+      'evaluated (compiled driver) on every entity of recognize_datetime over all Python-supported DateTime Specs inputs of '
+      'all cultures and generated expressions (incl. dates that do not exist) under references spread over 1950..2090.',
+      TB + 'Parsers that build value strings by concatenation (period parsers, CJK parsers, holidays) are NOT modelled: for them the '
+      'monitor is the only check. Entities with resolution None are counted, not judged. 35 recorded findings keyed by input.',
+      'Lean 4 proof about the assembly + Lean spec predicate evaluated on every entity the implementation returns',
+      'DESIGN.md §3 C11')
+
 check('C13', 'proof',
       'The IPv4 / IPv6 / GUID patterns are re-translated from the working tree\'s resource files into Lean regex ASTs on every '
       'run (translator validated by a regex correspondence against the real `regex` module on ~12k (pattern, string) pairs) '
